@@ -46,6 +46,8 @@ fn variants(thorough: bool) -> Vec<Variant> {
             (Base::Decay(-1.0), 2.0, lin_scales.clone()),
             (Base::Decay(-0.1), 3.0, lin_scales.clone()),
             (Base::Decay(2.0), 1.0, lin_scales.clone()),
+            // a solution shrinking by nine orders of magnitude (relative control must follow it down)
+            (Base::Decay(-5.0), 4.0, vec![1.0, 1e3]),
             (Base::Logistic(1.5), 2.0, vec![1.0, 2.0]),
             (Base::Riccati, 1.5, vec![1.0, 3.0]),
             (Base::Bernoulli, 1.5, vec![1.0, 1.6]),
@@ -257,6 +259,9 @@ pub fn run_check(replay: Option<Value>) -> i32 {
             return Some(out);
         }
         let mut errs = vec![];
+        // two step ladders: steps dividing the span (end point only) and steps that do not divide it
+        // (a shortened last step), the latter sampled through t_eval at 7 points inside the steps
+        let mut errs_te = vec![];
         for k in 3..=9 {
             let h = (xend - x0) / 2f64.powi(k);
             let mut c = Cfg::new(Method::RK4, x0, xend, &y0);
@@ -271,6 +276,22 @@ pub fn run_check(replay: Option<Value>) -> i32 {
                 }
                 _ => errs.push(f64::NAN),
             }
+            let mut c2 = Cfg::new(Method::RK4, x0, xend, &y0);
+            c2.first_step = Some((xend - x0) / (2f64.powi(k) - 0.4));
+            c2.t_eval = Some((0..=6).map(|i| x0 + (xend - x0) * (i as f64 + if i == 6 { 0.0 } else { 0.37 }) / 6.0).map(|t| if (t - x0).abs() > (xend - x0).abs() { xend } else { t }).collect());
+            let r2 = run(&p, &c2);
+            out.events += r2.st.n_ode;
+            match r2.sol() {
+                Some(s) if s.status == Status::Success && s.t.len() == 7 => {
+                    let mut e: f64 = 0.0;
+                    for (t, y) in s.t.iter().zip(&s.y) {
+                        let ex = p.exact(x0, &y0, *t).unwrap();
+                        e = e.max(y.iter().zip(&ex).fold(0.0f64, |a, (u, w)| a.max((u - w).abs())));
+                    }
+                    errs_te.push(e);
+                }
+                _ => errs_te.push(f64::NAN),
+            }
         }
         let scale = p.exact(x0, &y0, xend).unwrap().iter().fold(1e-300f64, |a, b| a.max(b.abs()));
         let floor = 1e-13 * scale.max(y0.iter().fold(0.0f64, |a, b| a.max(b.abs())));
@@ -280,7 +301,23 @@ pub fn run_check(replay: Option<Value>) -> i32 {
                 obs.push((errs[i] / errs[i + 1]).log2());
             }
         }
-        let desc = json!({"key": key, "problem": p.name, "direction": format!("{:?}", dir), "errors_h_halved": errs, "observed_orders": obs});
+        let mut obs_te = vec![];
+        for i in 0..errs_te.len() - 1 {
+            if errs_te[i].is_finite() && errs_te[i + 1].is_finite() && errs_te[i + 1] > floor {
+                obs_te.push((errs_te[i] / errs_te[i + 1]).log2());
+            }
+        }
+        let desc = json!({"key": key, "problem": p.name, "direction": format!("{:?}", dir), "errors_h_halved": errs, "observed_orders": obs,
+            "errors_t_eval_nondividing_steps": errs_te, "observed_orders_t_eval": obs_te});
+        let tail_te: Vec<f64> = obs_te.iter().rev().take(3).copied().collect();
+        if tail_te.len() >= 2 {
+            out.tag("rk4-convergence-t-eval");
+            let best = tail_te.iter().fold(f64::NEG_INFINITY, |a, b| a.max(*b));
+            // the cubic Hermite interpolant limits requested-time samples to O(h^4) as well
+            if best < 3.6 {
+                out.violations.push(Violation::new(&key, "rk4-order-t-eval", format!("RK4 on {} with steps not dividing the span, t_eval samples: observed orders {:?} (errors {:?})", p.name, obs_te, errs_te), desc.clone()).with("method", "RK4"));
+            }
+        }
         let tail: Vec<f64> = obs.iter().rev().take(3).copied().collect();
         if tail.len() >= 2 {
             out.tag("rk4-convergence");
@@ -373,6 +410,7 @@ pub fn run_check(replay: Option<Value>) -> i32 {
     }
     rep.require("ladder", 500);
     rep.require("rk4-convergence", 10);
+    rep.require("rk4-convergence-t-eval", 10);
     rep.rule = "every (method, problem variant, direction, initial-state scale, tolerance mode, t_eval) is run over the whole tolerance ladder; oracle: every component of every returned sample within K*kappa*max(1,naccpt)*(atol_i+rtol_i*Y(t)) of the closed form (K=50, kappa = conditioning from the closed-form flow, configurations with kappa>20 skipped and counted, rounding floor 64 eps scale sqrt(nfev)); tightening 100x never increases the worst error more than 5x; RK4: observed global order >= 3.6; thorough: dissipative polynomial fields against an independent extrapolated RK4 reference; distinct = distinct ladders".into();
     rep.assumptions.push("|y| is read as the max norm for coupled systems; a run that ends without Success is counted, not judged (the property speaks about returned samples), unless a whole tolerance mode never succeeds".into());
     rep.finish()
